@@ -7,6 +7,7 @@ CONSTANTS
   Reduce = FALSE
   ChunkSizes = {1, 2}
   BootMax = 3
+  Alphabet = 4
 SPECIFICATION Spec
 CHECK_DEADLOCK FALSE
 INVARIANT TypeOK
